@@ -586,6 +586,15 @@ pub fn generate(family: &str, seed: u64, count: usize, emit: &mut dyn FnMut(Stri
                     keys = vec![Value::symbol(nm.clone()), Value::string(nm.clone()), Value::keyword(nm)];
                 } else if r.chance(1, 4) {
                     keys = vec![Value::from(1), Value::from(1.0), Value::string("1"), Value::Char('1')];
+                } else if r.chance(1, 4) {
+                    // distinct integer keys that are the same double (64-bit identifiers with the top bits set), and the
+                    // float they round to; -0.0 / 0.0 / 0
+                    let base = (r.next() | (1u64 << 63)) & !0xfff;
+                    keys = match r.below(3) {
+                        0 => vec![Value::from(base + 37), Value::from(base + 38), Value::from(base + 39), Value::from((base + 38) as f64)],
+                        1 => vec![Value::from(i64::MAX), Value::from(1u64 << 63), Value::from((1u64 << 63) + 1), Value::from(9223372036854775808.0f64)],
+                        _ => vec![Value::from(0), Value::from(0.0), Value::from(-0.0), Value::from(-1)],
+                    };
                 }
                 let mut xs = Vec::new();
                 for _ in 0..n {
@@ -1078,6 +1087,15 @@ pub fn generate(family: &str, seed: u64, count: usize, emit: &mut dyn FnMut(Stri
                     }
                 }
             }
+            // an error that stops inside a multi-byte character, then more calls on the same parser (all sources), and
+            // malformed escapes followed by more data read through ONE kept iterator object
+            for text in ["#é x", "\"\\é\" y", "#\\xé z", "#né w", "?\\^é v", "(a #é) b", "#\\x4g b c", "\"\\x4z;\" b c", "a #\\x4g b c", "(\"\\xg;\") d e"] {
+                for ro in [R_DEFAULT, R_ELISP] {
+                    for api in ["h:vvvv", "h:dddd", "h:vdvd", "r:i:6", "r:j:6", "r:p:6", "r:v:6", "r:d:6"] {
+                        for src in ["s", "b", "i1"] { emit(parse_op(src, ro, api, text.as_bytes())); }
+                    }
+                }
+            }
             // character names and their prefixes / extensions
             for name in ["nul", "alarm", "backspace", "tab", "linefeed", "newline", "vtab", "page", "return", "esc", "space", "delete", "null", "escape", "del", "x", "x41", "xD800", "xD8000", "x110000", "x10FFFF", "x0", "x00000041", "x1000000", "xg", "λ", "t", "f"] {
                 for k in 0..=name.len() {
@@ -1233,7 +1251,7 @@ pub const PREFIX_TEXTS: &[&str] = &[
     "#nil", "#t", "#f", "#x1F", "#b-101", "#o+17", "#d42", "1.5", "1e21", "1.5e+10", "-2.5E-3", "#\\newline", "#\\x41",
     "#\\space", "#\\a", "#\\λ", "\"a\\x41;b\"", "\"\\n\\t\\\\\"", "#u8(1 2 255)", "#vu8(0)", "'a", "`(a ,b ,@c)", "λx", "aλ",
     "(a . b)", "#(1 #(2))", "#u8(#xFF 1 #b101 #o7 #d9)", "#vu8(#x-0 +5)", "#:kw", "(1 #x10)", "\"λ\"", ".5x", "...", "+.x", "(.x)", "(a .b)", "#\\xD8000", "#\\delete",
-    // Emacs numeric escapes whose value passes through the surrogate range while being read (repaired by 9849ccb)
+    // Emacs numeric escapes whose value passes through the surrogate range while being read (repaired by f34310f)
     "\"\\xD8000\"", "?\\xD8000", "\"\\1540000\"", "?\\1540000", "\"\\N{U+D8000}\"", "?\\N{U+D8000}", "(?\\xDFFF0 \"\\xdbff0\")",
     "?a", "?\\^a", "?\\N{U+41}", "?\\u00e9", "?\\x41", "?\\101", "\"\\u00e9\\101\"", "[1 2]", ":kw", "\"\\N{U+3bb}\"", "\"\\^a\"",
 ];
